@@ -71,7 +71,10 @@ def enum_cases(calls, smax, tier, seed, sub=1):
                             continue
                         cid += 1
                         nth = [1, 2, 3, 8][(k // 3) % 4]
-                        cases.append((cid, call, S, d, e, nc, nph, nb, dst, buf, nth, k % NVEC))
+                        cases.append((cid, call, S, d, e, nc, nph, nb, dst, buf, nth, k % NVEC, 0))
+                        if k % 4 == 0 and nth > 1:      # the same configuration in another delivery environment of the OpenMP runtime
+                            cid += 1
+                            cases.append((cid, call, S, d, e, nc, nph, nb, dst, buf, nth, (k // 4) % NVEC, 1 + (k // 4) % 3))
                     # wider matrices with uneven column blocks (ncols % nblock != 0, 2*ceil(ncols/nblock) <= ncols, ...)
                     if S <= 3:
                         for nc, nb in [(5, 2), (5, 3), (5, 4), (8, 3), (8, 5), (7, 2), (4, 3), (4, 2), (6, 4)]:
@@ -81,11 +84,11 @@ def enum_cases(calls, smax, tier, seed, sub=1):
                                         continue
                                     k += 1
                                     cid += 1
-                                    cases.append((cid, call, S, d, e, nc, nph, nb, dst, buf, [1, 2, 3, 8][k % 4], k % NVEC))
+                                    cases.append((cid, call, S, d, e, nc, nph, nb, dst, buf, [1, 2, 3, 8][k % 4], k % NVEC, [0, 0, 1, 0, 2, 3][k % 6]))
                     # zero columns: a no-op for every mode
                     for dst in ['same', 'other']:
                         cid += 1
-                        cases.append((cid, call, S, d, e, 0, 3, 1, dst, 'null', 2, 0))
+                        cases.append((cid, call, S, d, e, 0, 3, 1, dst, 'null', 2, 0, 0))
     return cases
 
 
@@ -98,9 +101,9 @@ def write_cases(path, cases):
 def case_key(rec_or_case):
     if isinstance(rec_or_case, dict):
         r = rec_or_case
-        return 'call=%s S=%s d=%s x=%s ncols=%s nphase=%s nblock=%s dst=%s buf=%s' % (r['call'], r['S'], r['d'], r['x'], r['ncols'], r['nphase'], r['nblock'], r['dst'], r['buf'])
+        return 'call=%s S=%s d=%s x=%s ncols=%s nphase=%s nblock=%s dst=%s buf=%s' % (r['call'], r['S'], r['d'], r['x'], r['ncols'], r['nphase'], r['nblock'], r['dst'], r['buf']) + (' env=%s' % r['env'] if r.get('env') else '')
     c = rec_or_case
-    return 'call=%s S=%s d=%s x=%s ncols=%s nphase=%s nblock=%s dst=%s buf=%s' % tuple(c[1:10])
+    return 'call=%s S=%s d=%s x=%s ncols=%s nphase=%s nblock=%s dst=%s buf=%s' % tuple(c[1:10]) + (' env=%s' % c[12] if len(c) > 12 and c[12] else '')
 
 
 def run_model(ck, wd, calls, maxs, tier, legacy_check=True):
@@ -156,7 +159,7 @@ def run_property(pid, calls, tier, seed, replay_path, doc_assumptions=()):
     smax = 4 if tier == 'quick' else 5
     if replay_path:
         j = json.load(open(replay_path))
-        cases = [tuple(c) for c in j['case']['cases']]
+        cases = [tuple(c) for c in j['case']['cases']] if not j['case'].get('hist') else []
     else:
         run_model(ck, wd, calls, 3 if tier == 'quick' else (4 if 'ext' in calls else 5), tier)
         cases = enum_cases(calls, smax, tier, seed, sub=(3 if tier == 'quick' else 1))
@@ -181,7 +184,7 @@ def run_property(pid, calls, tier, seed, replay_path, doc_assumptions=()):
         if case is None:
             ck.note('rejected record without a case: %s' % str(rec)[:200]); continue
         key = '%s -> %s' % (case_key(case), what)
-        cls = (case[1], what, case[8], 'blocks' if case[7] not in (0, 1) else 'single', 'sub' if case[3] < case[2] else 'full', 'ext' if case[4] > 0 else '')
+        cls = (case[1], what, case[8], 'blocks' if case[7] not in (0, 1) else 'single', 'sub' if case[3] < case[2] else 'full', 'ext' if case[4] > 0 else '', 'env%s' % case[12] if len(case) > 12 and case[12] else '')
         classes.setdefault(cls, []).append((key, case, rec))
     ck.cov['rejected_records'] = len(v['rejected'])
     ck.cov['rejection_classes'] = len(classes)
@@ -214,11 +217,75 @@ def run_property(pid, calls, tier, seed, replay_path, doc_assumptions=()):
                              dict(cases=[list(c) for c in cases[:pos + 1]]))
             else:
                 ck.note('rejection not reproduced on re-run (neither alone nor after its process history): ' + key)
+    if not replay_path or j['case'].get('hist'):
+        # the same transforms as calls number 2, 3, ... on one object (what an earlier call leaves behind must not matter)
+        hl = reuse_histories(calls, seed, 40 if tier == 'quick' else 400, S=smax) if not replay_path else j['case']['cases']
+        hv, hexe, _ = replay(ck, wd, hl, seed, smax, 'short call histories on one object vs fresh objects (%d histories)' % len(hl), hist=True)
+        judge_histories(ck, wd, hv, hexe, hl)
+        ck.cov['reuse_histories'] = len(hl)
     ck.cov['cases'] = len(cases)
     ck.cov['exhaustive'] = True
     ck.cov['exhaustive_scope'] = 'every (S,d[,x],ncols in 1..3,nphase,nblock,dst,buf) tuple with domain <= %d%s' % (1 << smax, ' (largest domain subsampled 1/3 in the quick tier)' if tier == 'quick' else '')
     return ck.finish()
 
+
+
+# ---------------------------------------------------------------- object histories (shared object vs fresh objects)
+def reuse_histories(calls, seed, n, S=4):
+    """short histories of the given call kinds on ONE object: same size with a different total column count but the same
+    block width, same shape with another destination / scratch mode, sizes going down and up, delivery environments"""
+    rng = vlib.Rng(seed ^ 0x4157)
+    lines = []
+    for i in range(n):
+        k = 2 + rng.below(3)
+        d0 = 1 + rng.below(S)
+        hs = []
+        for j in range(k):
+            call = calls[rng.below(len(calls))]
+            mode = (i + j) % 4
+            d = d0 if mode != 3 else rng.below(S + 1)
+            e = rng.below(S - d + 1) if call == 'ext' else 0
+            if mode == 1:      # same block width, different total width: (w, 1 block) then (2w, 2 blocks), (3w, 3 blocks)
+                w = 1 + (i % 3); nb = 1 + j % 3; nb = nb if w * nb <= 8 else 2; nc = w * nb      # at most 8 columns (8 column multipliers)
+            else:
+                nc = 1 + rng.below(6); nb = [0, 1, 2, 3][rng.below(4)]
+            dst = ['same', 'other', 'null'][rng.below(3)]
+            if call == 'ext' and dst == 'null':
+                dst = 'other'
+            hs.append('%s:%d:%d:%d:%d:%d:%s:%s:%d:%d' % (call, d, e, nc, [0, 1, 2, 3, 4, 1000000][rng.below(6)], nb, dst, ['null', 'caller'][rng.below(2)],
+                                                   rng.below(NVEC), [0, 0, 0, 1, 2, 3][rng.below(6)]))
+        lines.append('H %d %d %d %d %s' % (i + 1, S, 1 + rng.below(3), k, ' '.join(hs)))
+    return lines
+
+
+def judge_histories(ck, wd, v, exe, lines):
+    byid = {int(l.split()[1]): l for l in lines}
+    seen = set()
+    for idx, rec in v['rejected']:
+        if rec.get('e') == 'crash':
+            hid = int(rec['case'].split()[1]); what = 'crash %s %s' % (rec['kind'], rec['code']); step = '?'
+            calls = byid[hid].split()[5:]
+        else:
+            hid = rec.get('ci'); step = rec.get('step')
+            calls = byid[hid].split()[5:5 + step]
+            same_as_fresh = rec.get('out') == rec.get('fresh')
+            what = 'differs-from-fresh-object' if not same_as_fresh else 'wrong-result'
+        kinds = '>'.join('%s(N=2^%s%s)' % (c.split(':')[0], c.split(':')[1], ',x=' + c.split(':')[2] if c.startswith('ext') else '') for c in calls[-3:])
+        key = 'history %s -> %s at step %s' % (kinds, what, step)
+        cls = (what, tuple(c.split(':')[0] for c in calls[-2:]))
+        if cls in seen or len(ck.violations) >= 8:
+            continue
+        seen.add(cls)
+        cp = os.path.join(wd, 'confirm_cases.txt'); tp = os.path.join(wd, 'confirm.ndjson')
+        open(cp, 'w').write(byid[hid] + '\n')
+        if os.path.exists(tp):
+            os.remove(tp)
+        sh([exe, os.path.join(wd, 'ntt_inputs.txt'), cp, tp], timeout=300)
+        v2 = validate_trace(wd, 'Trace_NTT', 'Trace_NTT.cfg', tp, env={'NTTIN': os.path.join(wd, 'ntt_inputs.json')}, nsplit=1)
+        if v2['rejected']:
+            ck.violation(key, 'history %s' % byid[hid][:300], dict(cases=[byid[hid]], hist=True))
+        else:
+            ck.note('rejection not reproduced: ' + key)
 
 # ---------------------------------------------------------------- large sizes: sampled rows + digest agreement
 def big_replay(ck, wd, calls, seed, tier):
